@@ -87,6 +87,7 @@ type Env struct {
 	mu           sync.Mutex
 	Events       []Event
 	AttestReturn func(d *attester.Duty) []*phase0.Attestation // what the fake attester returns
+	SyncMissing map[uint64]bool // validators for which the account manager has no account (sync committee lookups by index)
 	inflight     atomic.Int64
 	activity     atomic.Int64
 }
@@ -255,7 +256,11 @@ func (a acctProv) SyncCommitteeAccountsForEpochByIndex(_ context.Context, _ phas
 	if idx == nil {
 		idx = []phase0.ValidatorIndex{}
 	}
-	return a.all(idx), nil
+	out := a.all(idx)
+	for v := range a.e.SyncMissing {
+		delete(out, phase0.ValidatorIndex(v))
+	}
+	return out, nil
 }
 
 // ---- recording duty services ----
